@@ -3,7 +3,7 @@
    Unparser's output for it, and the tokens of its original source text.
    The model's printer must produce the formatter's tokens, and the model's
    parser must rebuild the tree from both token lists. *)
-From V Require Export Base.Bytes Lang.Grammar Lang.Unparse.
+From V Require Export Base.Bytes Lang.Grammar Lang.Unparse Lang.UnparseDecl.
 
 Definition atom_eqb (a b : atom) : bool :=
   match a, b with
@@ -62,15 +62,38 @@ Definition tk_eqb (a b : tk) : bool :=
 Definition parses_to (ts : list tk) (a : estmt) : bool :=
   match parse ts with Some b => estmt_eqb a b | None => false end.
 
-Inductive c23case :=
-| CExpr (id : N) (a : estmt) (fmt_toks src_toks : list tk).
+Definition dtk_eqb (a b : dtk) : bool :=
+  match a, b with
+  | DHidden, DHidden | DBy, DBy | DComma, DComma | DAs, DAs | DLimit, DLimit | DBuckets, DBuckets => true
+  | DKind x, DKind y => N.eqb x y
+  | DName x, DName y => bytes_eqb x y
+  | DStr x, DStr y => bytes_eqb x y
+  | DInt x, DInt y => Z.eqb x y
+  | DNum x, DNum y => N.eqb x y
+  | _, _ => false
+  end.
 
-Definition c23_id (c : c23case) : N := match c with CExpr i _ _ _ => i end.
+Definition decl_eqb (a b : decl) : bool :=
+  Bool.eqb (d_hidden a) (d_hidden b) && N.eqb (d_kind a) (d_kind b) && bytes_eqb (d_name a) (d_name b)
+  && list_eqb bytes_eqb (d_keys a) (d_keys b) && Z.eqb (d_limit a) (d_limit b)
+  && list_eqb N.eqb (d_buckets a) (d_buckets b) && bytes_eqb (d_as a) (d_as b).
+
+Definition decl_parses_to (ts : list dtk) (d : decl) : bool :=
+  match parse_decl ts with Some d' => decl_eqb d d' | None => false end.
+
+Inductive c23case :=
+| CExpr (id : N) (a : estmt) (fmt_toks src_toks : list tk)
+| CDecl (id : N) (d : decl) (fmt_toks src_toks : list dtk).
+
+Definition c23_id (c : c23case) : N := match c with CExpr i _ _ _ | CDecl i _ _ _ => i end.
 
 Definition c23_ok (c : c23case) : bool :=
   match c with
   | CExpr _ a fmt_toks src_toks =>
       list_eqb tk_eqb (unparse a) fmt_toks && parses_to fmt_toks a && parses_to src_toks a
+  | CDecl _ d fmt_toks src_toks =>
+      list_eqb dtk_eqb (unparse_decl d) fmt_toks && decl_parses_to fmt_toks d
+      && decl_parses_to src_toks d
   end.
 
 Definition mismatches (l : list c23case) : list N := failing c23_ok c23_id l.
